@@ -162,6 +162,17 @@ SetDescription(d, f, e) ==
                ELSE Sealed(DescTok(e), FolderKey(f, folders[d][f].gen))}, <<"SetDescription", d, f, e>>)
   /\ UNCHANGED slots
 
+(* export_folder_buffer + import_folder_buffer(overwrite = FALSE): the      *)
+(* folder comes back as a copy sealed under the export key; its public     *)
+(* name is the original name with a disambiguating suffix (no new token)   *)
+ImportCopy(d, f) ==
+  /\ f \in Folders /\ Has(d, f)
+  /\ Write(d, {Sealed(FolderKey(f, 99), AccountKey)}
+              \cup (IF folders[d][f].desc = "-" THEN {}
+                    ELSE {Sealed(DescTok(folders[d][f].desc), FolderKey(f, 99))}),
+           <<"ImportCopy", d, f>>)
+  /\ UNCHANGED <<folders, slots>>
+
 (* Sync(d): everything written at d since its last sync crosses the wire   *)
 (* and is stored by the server; everything the server holds that d lacks   *)
 (* crosses the wire and is stored at d.                                    *)
@@ -194,6 +205,7 @@ Next ==
      \/ \E d \in Devices, f \in Folders, e \in Descs \cup {"-"} : CreateFolder(d, f, e)
      \/ \E d \in Devices, f \in AllFolders, n \in Names : RenameFolder(d, f, n)
      \/ \E d \in Devices, f \in AllFolders, e \in Descs : SetDescription(d, f, e)
+     \/ \E d \in Devices, f \in Folders : ImportCopy(d, f)
      \/ \E d \in Devices : Sync(d)
      \/ \E d \in Devices : Export(d)
 
